@@ -169,3 +169,50 @@ func runC01R8(c *Ctx, sessionHandlers map[*ssa.Function]bool, gas *ssa.Function)
 		c.bad(rule, "preauth|Use", bsm.Blocks[0].Instrs[0], "preAuthChain is not installed with Use on the root router: no request scope, no health/readiness handling", nil, 0)
 	}
 }
+
+// runBasicSplitRule: a Basic credential "user:password" is split at the FIRST colon only (RFC 7617: the
+// password may contain colons). getBasicAuthCredentials divides the decoded token with
+// strings.SplitN(·, ":", 2) / strings.Cut / an index of the first ':' — never a full strings.Split whose part
+// count rejects a correct password that contains a colon (the converse clause: a credential that verifies is served).
+func runBasicSplitRule(c *Ctx, rule string) {
+	fn := c.Fn(rule, "pkg/middleware.getBasicAuthCredentials")
+	if fn == nil {
+		return
+	}
+	n := 0
+	for _, b := range fn.Blocks {
+		for _, in := range b.Instrs {
+			call, ok := in.(*ssa.Call)
+			if !ok {
+				continue
+			}
+			cc := &call.Call
+			sepOK := func(i int) bool {
+				if i >= len(cc.Args) {
+					return false
+				}
+				s, ok := ConstString(cc.Args[i])
+				return ok && s == ":"
+			}
+			key := "first-colon|" + fnKey(fn)
+			switch {
+			case isStd(cc, "strings", "SplitN") && sepOK(1):
+				n++
+				if k, ok := ConstInt(cc.Args[2]); ok && k == 2 {
+					c.ok(rule, key, in, "strings.SplitN(token, \":\", 2)")
+				} else {
+					c.R.Bad(rule, key, c.pos(in), "the credential is split into a number of parts other than two: a password containing ':' is mangled or refused", nil, nil)
+				}
+			case isStd(cc, "strings", "Cut") && sepOK(1), isStd(cc, "strings", "Index") && sepOK(1), isStd(cc, "strings", "IndexByte"), isStd(cc, "strings", "IndexRune"):
+				n++
+				c.ok(rule, key, in, "cut at the first ':'")
+			case isStd(cc, "strings", "Split") && sepOK(1), isStd(cc, "strings", "LastIndex") && sepOK(1), isStd(cc, "strings", "Fields"):
+				n++
+				c.R.Bad(rule, key, c.pos(in), "the credential is split at every ':' (or at the last one): a correct password that contains a colon is refused although it verifies against the htpasswd file", nil, nil)
+			}
+		}
+	}
+	if n == 0 {
+		c.R.Unknown(rule, "first-colon|none", c.P.Pos(fn.Pos()), "getBasicAuthCredentials does not split the decoded token with a recognised first-colon idiom")
+	}
+}
